@@ -1,3 +1,4 @@
+import EV.Props.C03run
 import EV.Proofs.IndexUndo
 
 /-!
